@@ -263,7 +263,7 @@ func (x *Exec) slotName(t types.Type, field string) string {
 func (x *Exec) storeVal(st *State, p *Pointer, v *Value, ins ssa.Instruction) {
 	if p.Kind == PGlobal {
 		hn := "G_" + sanitize(p.Glob)
-		x.setHeap(st, hn, x.Sorts.SortOf(p.Typ), x.updateGlobal(st, p, v))
+		x.setHeap(st, hn, x.Sorts.SortOf(globalElemType(p)), x.updateGlobal(st, p, v))
 		return
 	}
 	// Go-level values (closures, pointers to cells, iterators) can only live in cells
